@@ -12,21 +12,28 @@ Definition is_prefix_char (ch : N) : bool :=
   ((97 <=? ch) && (ch <=? 122)) || ((65 <=? ch) && (ch <=? 90)) || ((48 <=? ch) && (ch <=? 57))
   || (ch =? 95) || (ch =? 45).
 
-(* the loop body of regexToPrefix for i >= 1 *)
-Fixpoint prefix_scan (s : bytes) : bytes :=
+(* the loop body of regexToPrefix for i >= 1; acc is the prefix so far, reversed.
+   A quantifier (star, question mark, opening brace) makes the literal just before it optional, so that
+   literal is dropped again. *)
+Fixpoint prefix_scan (s : bytes) (acc : bytes) : bytes :=
   match s with
-  | [] => []
+  | [] => rev acc
   | ch :: s' =>
-      if is_prefix_char ch then ch :: prefix_scan s'
+      if is_prefix_char ch then prefix_scan s' (ch :: acc)
       else match ch, s' with
-           | 92, 46 :: s'' => 46 :: prefix_scan s''
-           | _, _ => []
+           | 92, 46 :: s'' => prefix_scan s'' (46 :: acc)
+           | _, _ => if (ch =? 42) || (ch =? 63) || (ch =? 123) then rev (tl acc) else rev acc
            end
   end.
 
+Fixpoint has_byte (c : N) (s : bytes) : bool :=
+  match s with [] => false | x :: s' => (x =? c) || has_byte c s' end.
+
+(* no static prefix unless the regex starts with ^; none either when it
+   contains an alternation (the other branch need not share the prefix) *)
 Definition regex_to_prefix (src : bytes) : bytes :=
   match src with
-  | 94 :: s' => prefix_scan s'
+  | 94 :: s' => if has_byte 124 src then [] else prefix_scan s' []
   | _ => []
   end.
 
@@ -76,12 +83,14 @@ End WithEngine.
 (* execution: the engine *)
 Definition rx_search (r : rx) (s : bytes) : bool := re_search (rx_ast r) s.
 
-(* MatchRegexAndExpand: regex only (a nil regex panics: None here is "no match") *)
+(* MatchRegexAndExpand: the regex must match and notRegex must not
+   (a nil regex panics in the real code: None here is "no match") *)
 Definition match_regex_and_expand (m : matcher) (key tpl : bytes) : option bytes :=
   match m_regex m with
   | None => None
   | Some r => match re_find (rx_ast r) key with
               | None => None
-              | Some c => Some (re_expand tpl key c)
+              | Some c => if (match m_notRegex m with Some nr => rx_search nr key | None => false end)
+                          then None else Some (re_expand tpl key c)
               end
   end.
